@@ -82,6 +82,43 @@ type c35Env struct {
 	typ    types.SignedMsgType
 	vs     *types.VoteSet
 	valSet *types.ValidatorSet
+	// how votes and claims reach the vote set (directly, or through a HeightVoteSet)
+	add   func(*types.Vote) (bool, error)
+	claim func(types.P2PID, types.BlockID) error
+	// fetch, if set, obtains the vote set once the container has created it
+	// (a HeightVoteSet opens a catch-up round on the first vote for it)
+	fetch func() *types.VoteSet
+	fresh *types.VoteSet
+}
+
+// cur is the vote set to observe; before the container created it, an
+// untouched set of the same parameters stands in.
+func (e *c35Env) cur() *types.VoteSet {
+	if e.vs != nil {
+		return e.vs
+	}
+	if e.fresh == nil {
+		e.fresh = types.NewVoteSet(c35Chain, e.c.Height, e.c.Round, e.typ, e.valSet)
+	}
+	return e.fresh
+}
+
+func (e *c35Env) addVote(v *types.Vote) (bool, error) {
+	if e.add != nil {
+		added, err := e.add(v)
+		if e.vs == nil && e.fetch != nil {
+			e.vs = e.fetch()
+		}
+		return added, err
+	}
+	return e.vs.AddVote(v)
+}
+
+func (e *c35Env) setPeerMaj23(p types.P2PID, id types.BlockID) error {
+	if e.claim != nil {
+		return e.claim(p, id)
+	}
+	return e.vs.SetPeerMaj23(p, id)
 }
 
 func c35BlockOf(id types.BlockID) int {
@@ -179,11 +216,11 @@ func abs(x int) int {
 // snapshot renders every observable of the vote set.
 func (e *c35Env) snapshot() string {
 	var sb strings.Builder
-	id, ok := e.vs.TwoThirdsMajority()
-	fmt.Fprintf(&sb, "maj=%v/%v has=%v any=%v all=%v commit=%v ba=%v|", id, ok, e.vs.HasTwoThirdsMajority(), e.vs.HasTwoThirdsAny(), e.vs.HasAll(), e.vs.IsCommit(), e.vs.BitArray())
+	id, ok := e.cur().TwoThirdsMajority()
+	fmt.Fprintf(&sb, "maj=%v/%v has=%v any=%v all=%v commit=%v ba=%v|", id, ok, e.cur().HasTwoThirdsMajority(), e.cur().HasTwoThirdsAny(), e.cur().HasAll(), e.cur().IsCommit(), e.cur().BitArray())
 	for b := 0; b < c35Blocks; b++ {
 		// a nil array (untracked block) and an all-zero one count the same votes
-		bb := e.vs.BitArrayByBlockID(bftBlockID(b))
+		bb := e.cur().BitArrayByBlockID(bftBlockID(b))
 		fmt.Fprintf(&sb, "b%d=", b)
 		for i := range e.sorted {
 			if bb.GetIndex(i) {
@@ -195,7 +232,7 @@ func (e *c35Env) snapshot() string {
 		sb.WriteByte('|')
 	}
 	for i := range e.sorted {
-		v := e.vs.GetByIndex(i)
+		v := e.cur().GetByIndex(i)
 		if v == nil {
 			sb.WriteString("nil|")
 		} else {
@@ -220,7 +257,7 @@ func isConflict(err error) (*types.VoteConflictingVotesError, bool) {
 
 // checkObs compares every quorum observable with the model.
 func (e *c35Env) checkObs(m *c35Model) error {
-	vs := e.vs
+	vs := e.cur()
 	id, ok := vs.TwoThirdsMajority()
 	if ok != (m.maj >= 0) {
 		return fmt.Errorf("TwoThirdsMajority ok=%v, model majority=%d (counted per block: %v, total %d)", ok, m.maj, e.countedAll(m), m.total)
@@ -304,7 +341,7 @@ func (e *c35Env) countedAll(m *c35Model) []int64 {
 func (e *c35Env) step(ctx *vk.Ctx, m *c35Model, op c35Op) error {
 	if op.Kind == "peer" {
 		before := e.snapshot()
-		err := e.vs.SetPeerMaj23(types.P2PID(fmt.Sprintf("peer%d", op.Peer)), bftBlockID(op.Block))
+		err := e.setPeerMaj23(types.P2PID(fmt.Sprintf("peer%d", op.Peer)), bftBlockID(op.Block))
 		prev, had := m.peers[op.Peer]
 		switch {
 		case had && prev != op.Block:
@@ -332,7 +369,7 @@ func (e *c35Env) step(ctx *vk.Ctx, m *c35Model, op c35Op) error {
 	if !valid {
 		ctx.Class("invalid:" + op.Defect)
 		before := e.snapshot()
-		added, err := e.vs.AddVote(v)
+		added, err := e.addVote(v)
 		if added || err == nil {
 			return fmt.Errorf("invalid vote (%s) %v: added=%v err=%v", op.Defect, v, added, err)
 		}
@@ -347,7 +384,7 @@ func (e *c35Env) step(ctx *vk.Ctx, m *c35Model, op c35Op) error {
 
 	i, X, ts := op.Val, op.Block, op.TS
 	m.sigs[fmt.Sprintf("%d/%d/%d", i, X, ts)] = v.Signature
-	added, err := e.vs.AddVote(v)
+	added, err := e.addVote(v)
 	ce, conflict := isConflict(err)
 	_, everSubmitted := m.submitted[i][X]
 	addedTS, isAdded := m.added[i][X]
@@ -432,7 +469,7 @@ func (e *c35Env) checkCommit(ctx *vk.Ctx, m *c35Model) error {
 	var pv any
 	func() {
 		defer func() { pv = recover() }()
-		commit = e.vs.MakeCommit()
+		commit = e.cur().MakeCommit()
 	}()
 	if e.typ != types.PrecommitType || m.maj < 0 {
 		if pv == nil {
@@ -509,9 +546,19 @@ func (e *c35Env) checkCommit(ctx *vk.Ctx, m *c35Model) error {
 	return nil
 }
 
+func c35NewModel(sorted []bftVal) *c35Model {
+	m := &c35Model{n: len(sorted), maj: -1, peers: map[int]int{}, claimed: map[int]bool{}, sigs: map[string][]byte{}}
+	for _, v := range sorted {
+		m.power = append(m.power, v.Power)
+		m.total += v.Power
+		m.added = append(m.added, map[int]int{})
+		m.submitted = append(m.submitted, map[int]map[int]bool{})
+	}
+	return m
+}
+
 func c35Exec(ctx *vk.Ctx, c c35Case) error {
 	e := &c35Env{c: c, sorted: bftSortedKeys(c.Vals), typ: types.SignedMsgType(c.Type)}
-	n := len(e.sorted)
 	e.valSet = bftValSet(c.Vals)
 	for i, v := range e.valSet.Validators {
 		if v.Address != bftAddr(e.sorted[i].Key) || v.VotingPower != e.sorted[i].Power {
@@ -519,13 +566,7 @@ func c35Exec(ctx *vk.Ctx, c c35Case) error {
 		}
 	}
 	e.vs = types.NewVoteSet(c35Chain, c.Height, c.Round, e.typ, e.valSet)
-	m := &c35Model{n: n, maj: -1, peers: map[int]int{}, claimed: map[int]bool{}, sigs: map[string][]byte{}}
-	for _, v := range e.sorted {
-		m.power = append(m.power, v.Power)
-		m.total += v.Power
-		m.added = append(m.added, map[int]int{})
-		m.submitted = append(m.submitted, map[int]map[int]bool{})
-	}
+	m := c35NewModel(e.sorted)
 	ctx.Class(fmt.Sprintf("type=%d", c.Type))
 	if err := e.checkObs(m); err != nil {
 		return fmt.Errorf("fresh vote set: %w", err)
